@@ -1094,7 +1094,12 @@ func (x *verifC16Run) converged(calls []verifC16RPCRec) {
 			fs = append(fs, finding{"C16/" + what + "/service-differs." + d, fmt.Sprintf("service %s differs in %s:\n local   %s\n catalog %s", id.ID, d, verifC16JSON(l), verifC16JSON(r))})
 		}
 	}
-	for id := range svcs {
+	for id, r := range svcs {
+		for k := range r.TaggedAddresses {
+			if strings.HasPrefix(k, structs.MetaKeyReservedPrefix) {
+				x.label("catalog-holds-server-owned-tagged-address:" + k)
+			}
+		}
 		if id == structs.ConsulServiceID {
 			continue
 		}
